@@ -57,6 +57,22 @@ class Scope(BaseScope):
         return self.top.source.filename
 
 
+class flow_property(cached_property):
+    """cached_property for name tables of a Flow.
+
+    A table computed while a loop back edge is being resolved is partial (the
+    unresolved edge was skipped), so it is remembered only until that
+    resolution is over."""
+
+    def __get__(self, obj, cls):  # type: ignore[no-untyped-def]
+        if obj is None:
+            return self
+        value = obj.__dict__[self.func.__name__] = self.func(obj)
+        if LoopFlow.resolving:
+            LoopFlow.resolving[-1].append((obj.__dict__, self.func.__name__))
+        return value
+
+
 class Flow(object):
     def __init__(self, hint, scope, parents=None):
         # type: (str, Scope, t.MutableSequence[Flow | LoopFlow] | None) -> None
@@ -78,12 +94,12 @@ class Flow(object):
             self.scope.locals.add(name.name)
             insert_loc(self._names, name)
 
-    @cached_property
+    @flow_property
     def names(self):
         # type: () -> t.Mapping[str, Name | MultiName]
         return MergedDict({n.name: n for n in self._names}, self.parent_names)
 
-    @cached_property
+    @flow_property
     def parent_names(self):
         # type: () -> t.Mapping[str, Name | MultiName ]
         if len(self.parents) == 1:
@@ -129,6 +145,9 @@ class LoopFlow(object):
     if False:
         _names = None  # type: t.Mapping[str, Name | MultiName]
 
+    # one entry per back edge being resolved right now: the memo slots filled meanwhile
+    resolving = []  # type: list[list[tuple[dict[str, t.Any], str]]]
+
     def __init__(self, parent):
         # type: (Flow) -> None
         self.parent = parent
@@ -146,11 +165,21 @@ class LoopFlow(object):
             pass
 
         self._resolving = True
+        partial = []  # type: list[tuple[dict[str, t.Any], str]]
+        LoopFlow.resolving.append(partial)
         try:
-            result = self._names = self.parent.names
+            result = self.parent.names
         finally:
             self._resolving = False
+            LoopFlow.resolving.pop()
+            # tables memoized during the resolution did not see this back edge: forget them
+            for memo, key in partial:
+                memo.pop(key, None)
 
+        self._names = result
+        if LoopFlow.resolving:
+            # resolved inside an outer, still unresolved loop: partial for that one
+            LoopFlow.resolving[-1].append((self.__dict__, '_names'))
         return result
 
 
